@@ -46,8 +46,8 @@ def make_case(rc):
             out = I.eval_formula('=%s(A1,B1)' % fn, {'A1': x, 'B1': n}, addr='H9')
         elif via == 'override':
             out = I.eval_formula('=%s(A1,B1)' % fn, {'A1': 1, 'B1': 0}, addr='H9', overrides=[I.Cell(0, 0, 0, x), I.Cell(0, 1, 0, n)])
-        else:   # literal (non-negative number, non-negative digits)
-            out = I.eval_formula('=%s(%s,%d)' % (fn, dec_str(False, mant, scale), n), {}, addr='H9')
+        else:   # literal number and literal digit count, either of them possibly written with a minus sign
+            out = I.eval_formula('=%s(%s%s,%d)' % (fn, '-' if neg else '', dec_str(False, mant, scale), n), {}, addr='H9')
     coq = 'CR %s {| dneg := %s; dmant := %s; dscale := %s |} %s %s %s' % (
         FN[fn], C.cbool(neg), C.cz(mant), C.cz(scale), C.cval(x), C.cz(n), C.cres(out))
     nt = scale > 0 or n < 0
@@ -72,7 +72,7 @@ def gen_recipes(rng, n):
         via = rng.choice(['direct', 'direct', 'cell', 'override', 'literal'])
         if fn == 'PERCENT' and via == 'direct':
             via = 'cell'
-        if via == 'literal' and (neg or nd < 0 or not literal_faithful(mant, scale)):
+        if via == 'literal' and ((fn == 'PERCENT' and neg) or not literal_faithful(mant, scale)):      # -x% is C01's business (sign scope)
             via = 'cell'
         out.append({'neg': neg, 'mant': mant, 'scale': scale, 'n': nd if fn != 'PERCENT' else 0, 'fn': fn, 'via': via,
                     'as_int': rng.random() < 0.7})
@@ -84,12 +84,19 @@ def gen_recipes(rng, n):
         fn = rng.choice(['ROUND', 'ROUNDUP', 'ROUNDDOWN', 'PERCENT'])
         out.append({'neg': rng.random() < 0.3, 'mant': mant, 'scale': scale, 'n': rng.randint(-3, 6) if fn != 'PERCENT' else 0,
                     'fn': fn, 'via': 'direct' if fn != 'PERCENT' else 'cell', 'as_int': True})
+    # percent of numbers below 100 with 11-18 decimal places (results below 1 whose 15 significant digits reach far behind the point)
+    for _ in range(n // 6):
+        digits = rng.randint(1, 15)
+        scale = rng.randint(max(11, digits), 18)
+        mant = rng.randint(10 ** (digits - 1), 10 ** digits - 1)
+        out.append({'neg': rng.random() < 0.3, 'mant': mant, 'scale': scale, 'n': 0, 'fn': 'PERCENT', 'via': rng.choice(['cell', 'override']), 'as_int': True})
     return out
 
 
 def corpus():
     mk = lambda neg, mant, scale, n, fn, via='direct': {'neg': neg, 'mant': mant, 'scale': scale, 'n': n, 'fn': fn, 'via': via, 'as_int': True}
-    rs = [mk(False, 1234, 0, -2, 'ROUND'), mk(False, 987, 0, -3, 'ROUND'), mk(False, 105, 2, 1, 'ROUND', 'literal'),
+    rs = [mk(False, 12345678, 4, -2, 'ROUND', 'literal'), mk(False, 12345678, 4, -1, 'ROUNDUP', 'literal'), mk(True, 19995, 1, -3, 'ROUNDDOWN', 'literal'),
+          mk(False, 123456789012345, 14, 0, 'PERCENT', 'cell'), mk(False, 625, 16, 0, 'PERCENT', 'cell'), mk(False, 1234, 0, -2, 'ROUND'), mk(False, 987, 0, -3, 'ROUND'), mk(False, 105, 2, 1, 'ROUND', 'literal'),
           mk(False, 30005, 4, 3, 'ROUNDUP', 'literal'), mk(False, 100625, 4, 2, 'ROUNDDOWN', 'literal'), mk(False, 105, 2, 0, 'PERCENT', 'literal'),
           mk(False, 7, 0, 0, 'PERCENT', 'cell'), mk(False, 2675, 3, 2, 'ROUND'), mk(True, 115, 2, 1, 'ROUNDDOWN'),
           mk(False, 7, 2, 2, 'ROUNDUP'), mk(False, 29, 2, 2, 'ROUNDDOWN'), mk(False, 123456, 2, 1, 'ROUND', 'cell'),
